@@ -2,6 +2,7 @@ package meta
 
 import (
 	"regexp/syntax"
+	"strings"
 
 	"github.com/coregx/coregex/literal"
 	"github.com/coregx/coregex/nfa"
@@ -603,6 +604,101 @@ func hasDotStarPrefix(re *syntax.Regexp) bool {
 	// .* = OpStar(OpAnyChar or OpAnyCharNotNL)
 	return first.Op == syntax.OpStar && len(first.Sub) > 0 &&
 		(first.Sub[0].Op == syntax.OpAnyChar || first.Sub[0].Op == syntax.OpAnyCharNotNL)
+}
+
+// dotStarLiteralSuffix reports whether the line shortcut of the reverse suffix
+// searchers (matchStartZero) is exact for re: re must be a greedy `.*` that cannot
+// cross '\n', followed by a finite set of plain literals which is precisely the
+// extracted suffix set. Only then does the leftmost match start at the beginning of
+// the first line containing a suffix and end with the last suffix on that line.
+//
+// hasDotStarPrefix alone is not enough: `.*?aa` (non-greedy), `(?s:.*)xx` (crosses
+// lines) and `.*foo.*bar` (more than a literal after the prefix) all start with `.*`
+// but need the reverse DFA and forward verification.
+func dotStarLiteralSuffix(re *syntax.Regexp, suffixes *literal.Seq) bool {
+	if !hasDotStarPrefix(re) || suffixes == nil {
+		return false
+	}
+	for re.Op == syntax.OpCapture && len(re.Sub) > 0 {
+		re = re.Sub[0]
+	}
+	first := re.Sub[0]
+	for first.Op == syntax.OpCapture && len(first.Sub) > 0 {
+		first = first.Sub[0]
+	}
+	if first.Flags&syntax.NonGreedy != 0 || first.Sub[0].Op != syntax.OpAnyCharNotNL {
+		return false
+	}
+	lang, ok := finiteLiteralLanguage(re.Sub[1:], 64)
+	if !ok || len(lang) == 0 || len(lang) != suffixes.Len() {
+		return false
+	}
+	for i, lit := range lang {
+		if len(lit) == 0 || strings.IndexByte(lit, '\n') >= 0 {
+			return false
+		}
+		found := false
+		for j := 0; j < suffixes.Len(); j++ {
+			if string(suffixes.Get(j).Bytes) == lit {
+				found = true
+				break
+			}
+		}
+		if !found {
+			return false
+		}
+		// A literal that is a prefix of another one makes the end of the match depend
+		// on the alternation order, which the shortcut does not look at.
+		for j, other := range lang {
+			if i != j && strings.HasPrefix(other, lit) {
+				return false
+			}
+		}
+	}
+	return true
+}
+
+// finiteLiteralLanguage returns the strings matched by the concatenation of subs when
+// it consists only of case-sensitive literals, captures, concatenations and alternations
+// of such (at most limit strings); ok is false otherwise.
+func finiteLiteralLanguage(subs []*syntax.Regexp, limit int) (lang []string, ok bool) {
+	lang = []string{""}
+	for _, sub := range subs {
+		var alts []string
+		switch sub.Op {
+		case syntax.OpLiteral:
+			if sub.Flags&syntax.FoldCase != 0 {
+				return nil, false
+			}
+			alts = []string{string(sub.Rune)}
+		case syntax.OpCapture, syntax.OpConcat:
+			alts, ok = finiteLiteralLanguage(sub.Sub, limit)
+			if !ok {
+				return nil, false
+			}
+		case syntax.OpAlternate:
+			for _, alt := range sub.Sub {
+				l, ok := finiteLiteralLanguage([]*syntax.Regexp{alt}, limit)
+				if !ok {
+					return nil, false
+				}
+				alts = append(alts, l...)
+			}
+		default:
+			return nil, false
+		}
+		if len(lang)*len(alts) > limit {
+			return nil, false
+		}
+		next := make([]string, 0, len(lang)*len(alts))
+		for _, p := range lang {
+			for _, a := range alts {
+				next = append(next, p+a)
+			}
+		}
+		lang = next
+	}
+	return lang, true
 }
 
 // isWildcardSubexpression checks if a subexpression acts as a "wildcard" that can
